@@ -162,3 +162,14 @@ type NUint64 uint64
 type NFloat32 float32
 type NFloat64 float64
 type NString string
+
+// Named container and pointer types (a named type keeps the codec of its underlying kind).
+type NPtrF32 *float32
+type NPtrF64 *float64
+type NPtrInt *int
+type NPtrStr *string
+type NSliceF64 []float64
+type NSliceInt []int
+type NSliceStr []string
+type NMapSI map[string]int
+type NBytes []byte
